@@ -101,8 +101,7 @@ def _height(db, chk, cs):
     chk.floor(rule, 3)
 
 
-def _kernel_info(db, chk, cs):
-    rule = "C13.R1-kernel-info"
+def _kernel_info(db, chk, cs, rule="C13.R1-kernel-info"):
     ref = f"{CS}:CallStackGraph._add_kernel_info_to_cpu_ops"
     fn = cs.func("CallStackGraph._add_kernel_info_to_cpu_ops")
     where = cs.loc(fn)
@@ -150,6 +149,18 @@ def _kernel_info(db, chk, cs):
                    "taking the first child that owns kernels is wrong when a later-launched kernel on another stream starts earlier")
         check_term(chk, rule, "host node: last_kernel_end = MAX over all children's last ends", where, to_term(a.get("last_end")), [exp_end])
         check_term(chk, rule, "host node: kernel_span = last_kernel_end - first_kernel_start", where, to_term(a.get("kernel_span")), [T.sub(exp_end, exp_start)])
+    # every event id (>= 0, id 0 included: the first event of the file) keeps its kernel info on the way into the frame
+    KI = ("kernelinfo",)
+    for r in runs[:1]:
+        flt = [e for e in r.events if e["kind"] == "filter" and e.get("base") == KI]
+        for e in flt:
+            try:
+                tt = {v: bool(T.evaluate(e["pred"], lambda leaf, v=v: v if leaf == ("index", KI) else (_ for _ in ()).throw(T.Unknown(leaf)))) for v in (0, 1, 7)}
+                okf = tt == {0: True, 1: True, 7: True}
+            except T.Unknown as u:
+                tt, okf = {"reads": T.show(u.args[0])[:80]}, None
+            chk.ob(rule, "the kernel-info rows written to the frame include every event id >= 0 (id 0 is the first event of the file)", okf, where, found={"predicate": T.show(e["pred"])[:100], "table": {str(k_): v_ for k_, v_ in tt.items()}},
+                   accepted="index >= 0 (only the negative per-thread roots are dropped)", why="`index > 0` leaves the first event of the file with num_kernels 0: an operator instance that opens the trace is never counted")
     # device leaf: the nested _dfs analysed on its own (closure supplied)
     from ..core.values import Ser
     dctx = (FD, T.cmp("!=", T.col(FD, "stream"), T.C(-1)), None)
